@@ -72,6 +72,10 @@ class Ctx:
     # -------------------------------------------------------------- snapshot
     def snapshot(self):
         """Copy the working tree's packages into scratch; nothing ever writes into REPO."""
+        with _LOCK:
+            return self._snapshot()
+
+    def _snapshot(self):
         if self.snap:
             return self.snap
         snap = os.path.join(self.scratch, "snap")
